@@ -11,6 +11,7 @@
 # express or implied. See the License for the specific language governing
 # permissions and limitations under the License.
 from collections import Counter
+import copy
 from typing import Callable, Dict, Any
 from dataclasses import dataclass
 
@@ -54,8 +55,11 @@ DEFAULT_INITIAL_SCORING = "thompson_indep"
 
 
 def encode_state(state: TuningJobState) -> Dict[str, Any]:
+    # The encoded state must not share mutable members with ``state``, which
+    # keeps changing
     trials_evaluations = [
-        {"trial_id": x.trial_id, "metrics": x.metrics} for x in state.trials_evaluations
+        {"trial_id": x.trial_id, "metrics": copy.deepcopy(x.metrics)}
+        for x in state.trials_evaluations
     ]
     pending_evaluations = [
         {"trial_id": x.trial_id, "resource": x.resource}
@@ -64,9 +68,9 @@ def encode_state(state: TuningJobState) -> Dict[str, Any]:
         for x in state.pending_evaluations
     ]
     enc_state = {
-        "config_for_trial": state.config_for_trial,
+        "config_for_trial": {k: v.copy() for k, v in state.config_for_trial.items()},
         "trials_evaluations": trials_evaluations,
-        "failed_trials": state.failed_trials,
+        "failed_trials": state.failed_trials.copy(),
         "pending_evaluations": pending_evaluations,
     }
     return enc_state
@@ -75,17 +79,22 @@ def encode_state(state: TuningJobState) -> Dict[str, Any]:
 def decode_state(
     enc_state: Dict[str, Any], hp_ranges: HyperparameterRanges
 ) -> TuningJobState:
+    # The decoded state is modified later on, it must not share mutable members
+    # with ``enc_state``
     trials_evaluations = [
-        TrialEvaluations(**x) for x in enc_state["trials_evaluations"]
+        TrialEvaluations(trial_id=x["trial_id"], metrics=copy.deepcopy(x["metrics"]))
+        for x in enc_state["trials_evaluations"]
     ]
     pending_evaluations = [
         PendingEvaluation(**x) for x in enc_state["pending_evaluations"]
     ]
     return TuningJobState(
         hp_ranges=hp_ranges,
-        config_for_trial=enc_state["config_for_trial"],
+        config_for_trial={
+            k: v.copy() for k, v in enc_state["config_for_trial"].items()
+        },
         trials_evaluations=trials_evaluations,
-        failed_trials=enc_state["failed_trials"],
+        failed_trials=list(enc_state["failed_trials"]),
         pending_evaluations=pending_evaluations,
     )
 
